@@ -105,3 +105,12 @@ Fixpoint repaired (p : prog) : bool :=
   | PBuild ContextSwitch b => repaired b
   | _ => true
   end.
+
+(* ---- unit types without a reciprocal member (length): plain scaling ---- *)
+Definition all_lunits := [L_int; L_A; L_nm; L_Bohr; L_au; L_m; L_SI].
+Section Lin.
+  Variable facl : lunit -> Q.
+  Definition to_int_l (u : lunit) (x : Q) : Q := x * facl u.
+  Definition to_cur_l (v : lunit) (y : Q) : Q := y / facl v.
+  Definition convert_l (u v : lunit) (x : Q) : Q := to_cur_l v (to_int_l u x).
+End Lin.
